@@ -59,9 +59,9 @@ Qed.
 Lemma ids_of_mapp : forall a b, ids_of (mapp a b) = ids_of a ++ ids_of b.
 Proof. induction a; intros; simpl; congruence. Qed.
 
-Lemma key_vals_length :
-  (forall t d vs, key_vals_ty t d = Ok vs -> length vs = length (ids_of (kh_type t))) /\
-  (forall ms d vs, key_vals ms d = Ok vs -> length vs = length (ids_of (kh_members ms))).
+Lemma key_vals_length_raw :
+  (forall t d vs, key_vals_ty t d = Ok vs -> length vs = length (ids_of (kh_collect t))) /\
+  (forall ms d vs, key_vals ms d = Ok vs -> length vs = length (ids_of (kh_collect_ms ms))).
 Proof.
   apply ty_members_ind; intros; simpl in *; try (inversion H; reflexivity).
   - inversion H0; reflexivity.
@@ -80,30 +80,64 @@ Proof.
       * eauto.
 Qed.
 
-Lemma kh_fill_factors :
-  (forall t d acc, kh_fill_ty t d acc =
-     (vs <- key_vals_ty t d ;; Ok (build (ids_of (kh_type t)) vs acc))) /\
-  (forall ms d acc, kh_fill ms d acc =
-     (vs <- key_vals ms d ;; Ok (build (ids_of (kh_members ms)) vs acc))).
+(* n, n+1, ..., n+k-1: the ids fill_struct_key_holder_* hand out *)
+Fixpoint zseq (n : Z) (k : nat) : list Z :=
+  match k with O => [] | S k' => n :: zseq (n + 1) k' end.
+
+Lemma zseq_length : forall k n, length (zseq n k) = k.
+Proof. induction k; intros; simpl; auto. Qed.
+
+Lemma zseq_app : forall a b n, zseq n (a + b) = zseq n a ++ zseq (n + Z.of_nat a) b.
 Proof.
-  apply ty_members_ind; intros; simpl; try reflexivity.
+  induction a as [|a IH]; intros b n.
+  - simpl. f_equal. lia.
+  - cbn [plus zseq app]. f_equal. rewrite IH. do 2 f_equal. lia.
+Qed.
+
+Lemma ids_of_renumber : forall ms n, ids_of (renumber n ms) = zseq n (length (ids_of ms)).
+Proof. induction ms; intros; simpl; auto. rewrite IHms. reflexivity. Qed.
+
+Lemma tys_of_renumber : forall ms n, tys_of (renumber n ms) = tys_of ms.
+Proof. induction ms; intros; simpl; auto. rewrite IHms. reflexivity. Qed.
+
+Lemma key_vals_length : forall t d vs,
+  key_vals_ty t d = Ok vs -> length vs = length (ids_of (kh_type t)).
+Proof.
+  intros t d vs H. unfold kh_type. rewrite ids_of_renumber, zseq_length.
+  eapply (proj1 key_vals_length_raw); eauto.
+Qed.
+
+Lemma kh_fill_factors :
+  (forall t d acc n, kh_fill_ty t d (acc, n) =
+     (vs <- key_vals_ty t d ;; Ok (build (zseq n (length vs)) vs acc, n + Z.of_nat (length vs)))) /\
+  (forall ms d acc n, kh_fill ms d (acc, n) =
+     (vs <- key_vals ms d ;; Ok (build (zseq n (length vs)) vs acc, n + Z.of_nat (length vs)))).
+Proof.
+  apply ty_members_ind; intros; cbn [kh_fill_ty kh_fill key_vals_ty key_vals bind length zseq build];
+    try (rewrite Z.add_0_r; reflexivity).
   - apply H.
   - destruct key.
-    + destruct (get_value id d) as [v| |]; simpl; try reflexivity.
-      rewrite H0. destruct (key_vals rest d); reflexivity.
+    + destruct (get_value id d) as [v| |]; cbn [bind]; try reflexivity.
+      cbn [fst snd]. rewrite H0. destruct (key_vals rest d) as [vs'| |]; cbn [bind]; try reflexivity.
+      cbn [length zseq build]. do 2 f_equal. lia.
     + destruct (is_struct t && negb opt) eqn:Es.
-      * destruct (get_value id d) as [v| |]; simpl; try reflexivity.
+      * destruct (get_value id d) as [v| |]; cbn [bind]; try reflexivity.
         destruct v; try reflexivity.
-        rewrite H. destruct (key_vals_ty t d0) as [a| |] eqn:Ea; simpl; try reflexivity.
-        rewrite H0. destruct (key_vals rest d) as [vs'| |] eqn:E; simpl; try reflexivity.
-        rewrite ids_of_mapp, build_app; auto.
-        symmetry. eapply (proj1 key_vals_length); eauto.
+        rewrite H. destruct (key_vals_ty t d0) as [a| |] eqn:Ea; cbn [bind]; try reflexivity.
+        rewrite H0. destruct (key_vals rest d) as [vs'| |] eqn:E; cbn [bind]; try reflexivity.
+        rewrite app_length, zseq_app, build_app by (rewrite zseq_length; reflexivity).
+        do 2 f_equal. lia.
       * apply H0.
 Qed.
 
 Lemma key_holder_data_factors : forall t d,
   key_holder_data t d = (vs <- key_vals_ty t d ;; Ok (build (ids_of (kh_type t)) vs FNil)).
-Proof. intros. apply (proj1 kh_fill_factors). Qed.
+Proof.
+  intros. unfold key_holder_data. rewrite (proj1 kh_fill_factors).
+  destruct (key_vals_ty t d) as [vs| |] eqn:V; cbn [bind fst]; try reflexivity.
+  unfold kh_type. rewrite ids_of_renumber.
+  rewrite <- (proj1 key_vals_length_raw t d vs V). reflexivity.
+Qed.
 
 (* C11 <= : equal key members, equal handles; nothing else of the samples matters *)
 Theorem handle_eq_of_key_eq : forall t d1 d2,
